@@ -135,6 +135,15 @@ func genC17(seed uint64, part string) *Scenario {
 
 func genC06(seed uint64, part string) *Scenario {
 	r := common.NewRng(seed)
+	if part == "manual" && common.NewRng(seed^0x5bd1e995).Chance(1, 4) {
+		// hand-over programs without priority updates (one to three bars queued
+		// after one predecessor, chains): "a bar that replaces a finished
+		// predecessor takes that predecessor's place" judged by the rank rule,
+		// which steps aside as soon as a scenario changes priorities
+		sc := genC17(seed, "manual")
+		sc.Fam = "C06/manual"
+		return sc
+	}
 	sc := &Scenario{Fam: "C06/" + part, Seed: seed, Q: -1, Width: 100, End: "natural", Policy: r.PickS("none", "light")}
 	sc.RefreshUS = r.Pick(100, 500, 2000)
 	g := &gen{r: r, sc: sc}
@@ -281,6 +290,17 @@ func genC12(seed uint64, part string) *Scenario {
 	for i := range sc.Bars {
 		if sc.Bars[i].Filler == "spinner" {
 			sc.Bars[i].Filler = "bar"
+		}
+	}
+	// texts whose display width differs from their rune and byte counts
+	gr := common.NewRng(seed ^ 0x9e3779b97f4a7c15)
+	for i := range sc.Bars {
+		for _, ds := range [][]DecSpec{sc.Bars[i].Pre, sc.Bars[i].App} {
+			for k := range ds {
+				if ds[k].Kind == "sync" && gr.Chance(1, 3) {
+					ds[k].Glyph = gr.Pick(1, 2)
+				}
+			}
 		}
 	}
 	// more frames: every client ends with a few cycle waits
